@@ -1,6 +1,7 @@
 import Lean.Data.Json
 import DEvo.Mut.Env
 import DEvo.Sig.Diff
+import DEvo.Ser.Sig
 
 /-! JSON codecs of the driver protocol (not part of the verified library). -/
 
@@ -169,5 +170,69 @@ def appDiffJ (d : AppDiff) : Json :=
 def projDiffJ (d : ProjDiff) : Json :=
   Json.mkObj [("changed", Json.arr (d.changed.map (fun p => Json.arr #[Json.str p.1, appDiffJ p.2])).toArray),
     ("deleted", Json.arr (d.deleted.map (fun p => Json.arr #[Json.str p.1, jStrs p.2])).toArray)]
+
+open DEvo.Ser in
+mutual
+partial def vOf (j : Json) : Except String V := do
+  let t ← j.getObjValAs? String "t"
+  match t with
+  | "null" => pure .null
+  | "int" => do pure (.int (← (← j.getObjVal? "v").getInt?))
+  | "str" => do pure (.str (← j.getObjValAs? String "v"))
+  | "bool" => do pure (.bool (← j.getObjValAs? Bool "v"))
+  | "list" => do pure (.list (← vlOf (← j.getObjVal? "v")))
+  | "tuple" => do pure (.tuple (← vlOf (← j.getObjVal? "v")))
+  | "dict" => do pure (.dict (← vdOf (← j.getObjVal? "v")))
+  | "q" => do
+    let conn ← optStr j "conn"
+    pure (.q conn (← j.getObjValAs? Bool "neg") (← vlOf (← j.getObjVal? "children")))
+  | "obj" => do
+    pure (.obj (← j.getObjValAs? String "type") (← vlOf (← j.getObjVal? "args")) (← vdOf (← j.getObjVal? "kwargs")))
+  | "enum" => do pure (.enum (← j.getObjValAs? String "type") (← j.getObjValAs? String "name"))
+  | _ => throw s!"bad value tag {t}"
+partial def vlOf (j : Json) : Except String VL := do
+  let a ← j.getArr?
+  a.toList.foldrM (fun x acc => do pure (VL.cons (← vOf x) acc)) VL.nil
+partial def vdOf (j : Json) : Except String VD := do
+  let a ← j.getArr?
+  a.toList.foldrM (fun p acc => do
+    let q ← p.getArr?
+    match q.toList with
+    | [k, v] => do pure (VD.cons (← k.getStr?) (← vOf v) acc)
+    | _ => throw "bad dict entry") VD.nil
+end
+
+open DEvo.Ser in
+mutual
+partial def vJ : V → Json
+  | .null => Json.mkObj [("t", "null")]
+  | .int i => Json.mkObj [("t", "int"), ("v", toJson i)]
+  | .str s => Json.mkObj [("t", "str"), ("v", s)]
+  | .bool b => Json.mkObj [("t", "bool"), ("v", b)]
+  | .list xs => Json.mkObj [("t", "list"), ("v", Json.arr (vlJ xs).toArray)]
+  | .tuple xs => Json.mkObj [("t", "tuple"), ("v", Json.arr (vlJ xs).toArray)]
+  | .dict kvs => Json.mkObj [("t", "dict"), ("v", Json.arr (vdJ kvs).toArray)]
+  | .q c n ch => Json.mkObj [("t", "q"), ("conn", jOpt c), ("neg", n), ("children", Json.arr (vlJ ch).toArray)]
+  | .obj ty a k => Json.mkObj [("t", "obj"), ("type", ty), ("args", Json.arr (vlJ a).toArray),
+      ("kwargs", Json.arr (vdJ k).toArray)]
+  | .enum ty n => Json.mkObj [("t", "enum"), ("type", ty), ("name", n)]
+partial def vlJ : VL → List Json
+  | .nil => [] | .cons v t => vJ v :: vlJ t
+partial def vdJ : VD → List Json
+  | .nil => [] | .cons k v t => Json.arr #[Json.str k, vJ v] :: vdJ t
+end
+
+open DEvo.Ser in
+mutual
+/-- the stored JSON text, as a JSON value (for comparison with json.dumps output) -/
+partial def svJ : SV → Json
+  | .null => Json.null | .int i => toJson i | .str s => Json.str s | .bool b => toJson b
+  | .list xs => Json.arr (slJ xs).toArray | .tuple xs => Json.arr (slJ xs).toArray
+  | .dict _ kvs => Json.mkObj (sdJ kvs)
+partial def slJ : SL → List Json
+  | .nil => [] | .cons v t => svJ v :: slJ t
+partial def sdJ : SD → List (String × Json)
+  | .nil => [] | .cons k v t => (k, svJ v) :: sdJ t
+end
 
 end Codec
